@@ -259,6 +259,26 @@ def run(prop, tier):
                         f"instance {r['text']}: the recorded step probabilities over the complete tree sum to {r['prob_mass']} not 1",
                         {"instance": r["text"]})
 
+    # ---- (3) C06 only: closability analysis of descriptor types (GenerateTypes.tla), independent of the targets ----
+    closab = {}
+    if prop == "C06":
+        hand = [m for m in I.core_instances() + I.negative_instances() + I.extra_instances()]
+        for m, (wp, errs, n, closed) in zip(hand, G.parallel(lambda m: G.closability(m), hand, workers=8)):
+            closab[m.name] = {"wellposed_for_all_targets": wp, "closed_when_done": closed, "abstract_errors": errs, "abstract_states": n}
+            mc_states += n
+        for r in results:
+            base = r["name"][:-5] if r["name"].endswith("-long") else r["name"]
+            c = closab.get(base)
+            if not c or "machinery" in r or r.get("error"):
+                continue
+            errors_seen = [k for k in r["outcomes"] if k.startswith("error")]
+            open_seen = [k for k in r["outcomes"] if k.startswith("done") and k.endswith(":open")]
+            if c["wellposed_for_all_targets"] and errors_seen and not r["diags"]:
+                # the concrete machine (and the code) reach an error that the over-approximation excludes: the abstraction is wrong
+                raise MachineryError(f"GenerateTypes calls {base} well-posed for all targets but the validated traces end in {errors_seen}")
+            if c["wellposed_for_all_targets"] and c["closed_when_done"] and open_seen and not r["diags"]:
+                raise MachineryError(f"GenerateTypes calls {base} closed but validated traces end with open descriptors")
+
     # vacuity guards: every decision kind must have been exercised, with every law class where the property is about laws
     missing = []
     for k in G.KINDS:
@@ -291,6 +311,10 @@ def run(prop, tier):
                         "divergences_belonging_to_other_properties": {k: len(x) for k, x in other_props.items()}},
         "samples": samples or [{"instance": results[0]["text"]}],
     }
+    if closab:
+        v.coverage["closability_analysis"] = {"instances": len(closab),
+                                              "wellposed_for_all_targets_and_closed": sorted(k for k, c in closab.items() if c["wellposed_for_all_targets"] and c["closed_when_done"]),
+                                              "possibly_ill_posed": {k: c["abstract_errors"] for k, c in closab.items() if not c["wellposed_for_all_targets"]}}
     v.assumptions = [
         "candidate order = notation order; the open-descriptor pick precedes the partner pick (both stated by C08 and the README algorithm)",
         "the provisional finalisation on a copy after every unit is part of the modelled algorithm (its generator calls appear in the traces)",
